@@ -85,7 +85,7 @@ class Clif:
         if name not in st.v: raise Unparsable(f'use of undefined value {name}')
         return st.v[name]
     def addr_operand(self, st, tok):
-        m = re.fullmatch(r'(v\d+)([+-](?:0x[0-9a-fA-F]+|\d+))?', tok.strip())
+        m = re.fullmatch(r'(v\d+)([+-](?:0x[0-9a-fA-F]+|\d+))?', tok.strip().replace('_', ''))      # Cranelift groups long hex offsets as 0x7fff_ffff
         if not m: raise Unparsable('address operand ' + tok)
         a = self.val(st, m.group(1))
         return a + BitVecVal(int(m.group(2), 0), 64) if m.group(2) else a
